@@ -178,7 +178,9 @@ class World:
     def observe(self):
         out = []
         err = 0
-        main = self.kl._main_lock if self.kl is not None else None
+        # (read defensively: if the lock's internals are renamed the observation differs from the model's - a reported
+        # disagreement - instead of crashing the check)
+        main = getattr(self.kl, "_main_lock", None) if self.kl is not None else None
         mainw = list(main._waiters or []) if main is not None else []
         for i, t in enumerate(self.tasks):
             if t is None or not self.started[i] and not t.done():
@@ -206,10 +208,10 @@ class World:
         if self.mode == "keyed":
             out += self.enc_lock(main)
             out.append(-1)
-            for k, lk in self.kl._locks.items():
+            for k, lk in getattr(self.kl, "_locks", {}).items():
                 out += [int(k[1:])] + self.enc_lock(lk)
             out.append(-1)
-            for k, r in self.kl._refs.items():
+            for k, r in getattr(self.kl, "_refs", {"k9": -9}).items():
                 out += [int(k[1:]), r]
         else:
             if self.plain is None:
@@ -249,9 +251,9 @@ class World:
                 self.monitor.append(("internal-error", "task %d ended with %r" % (i, t.exception())))
             elif not self.cancel_requested[i] and self.entered[i] != 1:
                 self.monitor.append(("progress", "task %d was never cancelled but entered %d times" % (i, self.entered[i])))
-        if self.mode == "keyed" and (self.kl._locks or self.kl._refs):
+        if self.mode == "keyed" and (getattr(self.kl, "_locks", None) or getattr(self.kl, "_refs", None)):
             self.monitor.append(("cleanup", "all holders and waiters are gone but _locks=%s _refs=%s" % (
-                sorted(self.kl._locks), dict(self.kl._refs))))
+                sorted(getattr(self.kl, "_locks", {})), dict(getattr(self.kl, "_refs", {})))))
 
     def finish_fairly(self, sched, segs):
         """Complete the run without further cancellation: open every gate, run every ready task."""
@@ -534,3 +536,64 @@ def gen_keys(rng, nmax=6):
     n = rng.choice([1, 2, 2, 3, 3, 3, 4, 4, 5, nmax])
     nk = rng.choice([1, 1, 2, 2, 3])
     return [rng.randrange(nk) for _ in range(n)]
+
+
+# ---- (d) looping workers: the same task takes a key again right after releasing it ------------------------------
+def loop_run(rng):
+    """W worker tasks over 1-2 keys, each taking its key R times in a row (release, then - after 0..2 yields - acquire
+    again) and staying inside for 0..2 yields; run on an ordinary loop.  Mutual exclusion, completion and clean-up are
+    evaluated on the real KeyedLock (a task that comes back is just another acquirer: who holds the key must not depend
+    on which task asks).  Returns (monitor failures [(clause, text)], facts)."""
+    nkeys = rng.choice([1, 1, 2])
+    W = rng.choice([2, 2, 3, 4])
+    R = rng.choice([2, 3, 4])
+    plan = [[(rng.choice([0, 0, 1, 2]), rng.choice([0, 1, 1, 2])) for _ in range(R)] for _ in range(W)]
+    keys = [rng.randrange(nkeys) for _ in range(W)]
+    loop = vloop.VirtualLoop()
+    asyncio.set_event_loop(loop)
+    kl = KeyedLock()
+    occ, mon, trace, done = {}, [], [], [0]
+    contended = [0]
+
+    async def worker(i):
+        k = "k%d" % keys[i]
+        for r, (outside, inside) in enumerate(plan[i]):
+            for _ in range(outside):
+                await asyncio.sleep(0)
+            if getattr(kl, "_locks", {}).get(k) is not None and kl._locks[k].locked():
+                contended[0] += 1
+            async with kl(k):
+                occ[k] = occ.get(k, 0) + 1
+                trace.append("%d.%d+" % (i, r))
+                if occ[k] > 1:
+                    mon.append(("mutex", "two holders inside the critical section of key %s (trace %s)" % (k, " ".join(trace[-8:]))))
+                try:
+                    for _ in range(inside):
+                        await asyncio.sleep(0)
+                finally:
+                    occ[k] -= 1
+                    trace.append("%d.%d-" % (i, r))
+        done[0] += 1
+
+    async def main():
+        ts = [asyncio.ensure_future(worker(i)) for i in range(W)]
+        for _ in range(40 * W * R + 50):
+            await asyncio.sleep(0)
+            if all(t.done() for t in ts):
+                break
+        for t in ts:
+            if not t.done():
+                t.cancel()
+        await asyncio.gather(*ts, return_exceptions=True)
+
+    try:
+        loop.run_until_complete(main())
+    finally:
+        asyncio.set_event_loop(None)
+        loop.close()
+    if done[0] != W:
+        mon.append(("progress", "%d of %d looping workers never finished their %d rounds" % (W - done[0], W, R)))
+    if getattr(kl, "_locks", None) or getattr(kl, "_refs", None):
+        mon.append(("cleanup", "all looping workers are gone but _locks=%s _refs=%s"
+                    % (sorted(getattr(kl, "_locks", {})), dict(getattr(kl, "_refs", {})))))
+    return mon, dict(keys=keys, plan=plan, contended_acquires=contended[0], rounds=W * R)
